@@ -446,21 +446,30 @@ func c07Run(c *fw.Ctx) fw.Outcome {
 	src, dst := c07Sources[pi/len(c07Dests)], c07Dests[pi%len(c07Dests)]
 	useCLI := (c.Idx/int64(pairs))%7 == 6 && haveCLI()
 	cues := c07GenNeutral(r, src, dst, src == "ts")
-	other := c07GenNeutral(r, src, dst, src == "ts")
-	if src == "ts" {
-		// teletext times are relative to the first presentation time of the stream
-		for _, l := range [][]ncue{cues, other} {
-			base := l[0].S
-			for k := range l {
-				l[k].S, l[k].E = l[k].S-base, l[k].E-base
+	// the document merged in is of the same format, or (every other case) of any other one: a transport stream
+	// merged with a styled SSA script, a TTML document with regions merged into an SRT list
+	src2 := src
+	if r.Bool() {
+		src2 = fw.Pick(r, c07Sources)
+	}
+	other := c07GenNeutral(r, src2, dst, src2 == "ts")
+	for _, l := range []struct {
+		format string
+		cues   []ncue
+	}{{src, cues}, {src2, other}} {
+		if l.format == "ts" {
+			// teletext times are relative to the first presentation time of the stream
+			base := l.cues[0].S
+			for k := range l.cues {
+				l.cues[k].S, l.cues[k].E = l.cues[k].S-base, l.cues[k].E-base
 			}
 		}
 	}
 	data, stlOpen := c07RenderSource(r, src, cues)
-	otherData, _ := c07RenderSource(r, src, other)
+	otherData, _ := c07RenderSource(r, src2, other)
 	dir := c.TmpDir()
 	in := filepath.Join(dir, "in."+caseMix(r, src))
-	in2 := filepath.Join(dir, "in2."+caseMix(r, src))
+	in2 := filepath.Join(dir, "in2."+caseMix(r, src2))
 	out := filepath.Join(dir, "out."+caseMix(r, dst))
 	os.WriteFile(in, data, 0o644)
 	os.WriteFile(in2, otherData, 0o644)
